@@ -85,7 +85,7 @@ func runC13(e *Engine, g G, o RunOpt) RunInfo {
 			if sc.TLS && g.Bool("permanent-kind") {
 				// the server answers the TLS handshake with an alert (it insists on a protocol version the
 				// application does not allow): a verdict on the TLS policy, not a lost connection
-				rd.Attempts = append(rd.Attempts, "permanent-tls-alert")
+				rd.Attempts = append(rd.Attempts, []string{"permanent-tls-alert", "permanent-no-starttls"}[g.N("permanent-tls-kind", 2)])
 			} else {
 				rd.Attempts = append(rd.Attempts, "permanent-auth")
 			}
@@ -158,6 +158,9 @@ func runC13(e *Engine, g G, o RunOpt) RunInfo {
 					s.AuthReply = AuthFailure
 				case "permanent-tls-alert":
 					s.TLS13Only = true
+				case "permanent-no-starttls":
+					// the server does not offer STARTTLS (any more): with TLS required that is final
+					s.StartTLS = TLSNone
 				}
 				scripts = append(scripts, s)
 			}
